@@ -15,8 +15,15 @@ from sc3.synth import server as srv
 
 
 class Obj:
+    """a FALSY object (servers, observed objects, listeners): `if x:` where `is None` is meant shows"""
     def __init__(self, n):
         self.n = n
+
+    def __bool__(self):
+        return False
+
+
+MSGS = {1: 0, 2: ''}        # falsy, hashable message keys
 
 
 def run(hist, use_cmdperiod):
@@ -101,11 +108,15 @@ def run(hist, use_cmdperiod):
             elif k == 'sv_run':
                 SV.run(skey(['srv', op[1]]))
             elif k == 'nc_register':
-                mdl.NotificationCenter.register(obj(op[1]), 'm%d' % op[2], lis(op[3]), nc_action(op[4]))
+                mdl.NotificationCenter.register(obj(op[1]), MSGS[op[2]], lis(op[3]), nc_action(op[4]))
             elif k == 'nc_unregister':
-                mdl.NotificationCenter.unregister(obj(op[1]), 'm%d' % op[2], lis(op[3]))
+                mdl.NotificationCenter.unregister(obj(op[1]), MSGS[op[2]], lis(op[3]))
             elif k == 'nc_notify':
-                mdl.NotificationCenter.notify(obj(op[1]), 'm%d' % op[2])
+                mdl.NotificationCenter.notify(obj(op[1]), MSGS[op[2]])
+            elif k == 'nc_unregister_msg':
+                mdl.NotificationCenter.unregister(obj(op[1]), MSGS[op[2]])
+            elif k == 'nc_unregister_obj':
+                mdl.NotificationCenter.unregister(obj(op[1]))
         except KeyError:
             log.append([0, 0])
         except Exception as e:
